@@ -40,11 +40,12 @@ Definition bind {A B} (o : outcome A) (k : A -> outcome B) : outcome B :=
   match o with Ok a => k a | Err e => Err e | OutOfFuel => OutOfFuel end.
 
 (* call-by-name environments: a variable is bound to an unevaluated closure.
-   [BRec defs rho x] is the definition named [x] of a group of mutually recursive definitions
-   (a [let rec], or the fields of a record literal that mention sibling fields). *)
+   [BRec a defs rho x] is the definition named [x] of a group of mutually recursive definitions:
+   a [let rec] ([a = true]: every member sees the group), or the fields of a record literal
+   ([a = false]: only the members that mention a sibling see the group). *)
 Inductive binding :=
  | BClos (e : tm) (rho : list (string * binding))
- | BRec (defs : list (string * tm)) (rho : list (string * binding)) (x : string).
+ | BRec (always : bool) (defs : list (string * tm)) (rho : list (string * binding)) (x : string).
 Definition env := list (string * binding).
 
 Inductive val :=
@@ -108,6 +109,30 @@ Fixpoint acyclic (t : tm) : bool :=
   | Rec fs => forallb (fun p => acyclic (snd p) && negb (has_deps (map fst fs) (snd p))) fs
   | Get e _ => acyclic e
   | Seq a b => acyclic a && acyclic b
+  end.
+
+(* record literals with pairwise distinct field names, everywhere in the term (what the parser
+   produces after merging duplicate definitions) *)
+Fixpoint nodup_names (ns : list string) : bool :=
+  match ns with
+  | [] => true
+  | x :: r => negb (mem x r) && nodup_names r
+  end.
+
+Fixpoint wft (t : tm) : bool :=
+  match t with
+  | Var _ | Num _ | Str _ | Bool _ | Fail | Import _ => true
+  | Lam _ b => wft b
+  | App f a => wft f && wft a
+  | Let _ e b => wft e && wft b
+  | LetRec _ e b => wft e && wft b
+  | Bin _ a b => wft a && wft b
+  | If c t e => wft c && wft t && wft e
+  | Arr es => forallb wft es
+  | At i a => wft i && wft a
+  | Rec fs => nodup_names (map fst fs) && forallb (fun p => wft (snd p)) fs
+  | Get e _ => wft e
+  | Seq a b => wft a && wft b
   end.
 
 (* substitution of [e] for the free occurrences of [x] (not capture-avoiding by itself: the
